@@ -1258,3 +1258,10 @@ class P(Prop):
                     for j in range(len(t["pts"])):
                         t2 = {"uid": t["uid"], "pts": t["pts"][:j] + t["pts"][j + 1:], "f": {n: v[:j] + v[j + 1:] for n, v in t["f"].items()}}
                         yield dict(case, colls=case["colls"][:k] + [col[:ti] + [t2] + col[ti + 1:]] + case["colls"][k + 1:])
+
+
+# ---- tie to the source by translation (tools/py2lean.py -> lean/TracklibVerif/Gen/Raster.lean, regenerated on every run)
+P.tie_modules = ["TracklibVerif.Tie.C19"]
+P.theorems = P.theorems + [
+    ("TracklibVerif.Tie.C19", "TV.Tie.C19.tie_getCell", "the Lean translation of the CURRENT source of Raster.getCell equals the model's getCell on all arguments (resolution != 0; int() = floor on integral floats; the scalar's == is Python's ==)"),
+]
